@@ -192,17 +192,20 @@ Fixpoint take_relay (k : ck) (i e : Z) (gs : list (list qent)) : option (list (l
 
 Definition depth (stk : list frame) : nat :=
   length (filter (fun f => match f with FCb _ => true | _ => false end) stk).
-Definition enter (p : params) (sc : scripts) (stk : list frame) (k : ck) (i : Z) : frame :=
-  FCb (if Nat.ltb (depth stk) 3 then script_of p sc k i else []).
+(* a script runs only below callback depth 3 and among the first 40 callbacks
+   of an operation (the doubles apply the same rule; it bounds scripts that
+   keep re-creating and re-marking what is being deleted) *)
+Definition enter (p : params) (sc : scripts) (n : nat) (stk : list frame) (k : ck) (i : Z) : frame :=
+  FCb (if Nat.ltb (depth stk) 3 && Nat.ltb n 40 then script_of p sc k i else []).
 
 Definition config := (st * list frame)%type.
 
-Definition lstep (p : params) (sc : scripts) (c : config) (x : lent) : option config :=
+Definition lstep (p : params) (sc : scripts) (n : nat) (c : config) (x : lent) : option config :=
   let '(s, stk) := c in
   match x, stk with
   | LCall k i e w, FK (MNotify k' i' e' :: ms) :: stk' =>
       if ck_eqb k k' && (i =? i') && (e =? e') && w
-      then Some (s, enter p sc stk k i :: FK ms :: stk') else None
+      then Some (s, enter p sc n stk k i :: FK ms :: stk') else None
   | LCall k i e w, FK (MDrain :: ms) :: stk' =>
       (* self._dead_entities.pop() gave e: delete_entity(e, immediate=True) *)
       match alookup e (ents s) with
@@ -213,14 +216,14 @@ Definition lstep (p : params) (sc : scripts) (c : config) (x : lent) : option co
             match run_micro p s1 (row_micros p e r ++ MDrain :: ms) with
             | (s2, MNotify CRem i' e' :: ms2) =>
                 if (i =? i') && (e =? e')
-                then Some (s2, enter p sc stk k i :: FK ms2 :: stk') else None
+                then Some (s2, enter p sc n stk k i :: FK ms2 :: stk') else None
             | _ => None
             end
           else None
       end
   | LCall k i e w, FK (MRelease gs :: ms) :: stk' =>
       match take_relay k i e gs with
-      | Some gs' => if w then Some (s, enter p sc stk k i :: FK (MRelease gs' :: ms) :: stk') else None
+      | Some gs' => if w then Some (s, enter p sc n stk k i :: FK (MRelease gs' :: ms) :: stk') else None
       | None => None
       end
   | LEnd, FCb [] :: FK ms :: stk' =>
@@ -239,10 +242,15 @@ Definition lstep (p : params) (sc : scripts) (c : config) (x : lent) : option co
   | _, _ => None
   end.
 
-Fixpoint lrun (p : params) (sc : scripts) (c : config) (log : list lent) : option config :=
+(* n = callbacks entered so far in this operation *)
+Fixpoint lrun (p : params) (sc : scripts) (n : nat) (c : config) (log : list lent) : option config :=
   match log with
   | [] => Some c
-  | x :: log => match lstep p sc c x with Some c' => lrun p sc c' log | None => None end
+  | x :: log =>
+      match lstep p sc n c x with
+      | Some c' => lrun p sc (match x with LCall _ _ _ _ => S n | _ => n end) c' log
+      | None => None
+      end
   end.
 
 (* a top-level operation through the machine *)
@@ -251,7 +259,7 @@ Definition mstep (p : params) (sc : scripts) (s : st) (o : op) (ob : robs) : opt
   | None => None
   | Some (s1, ms) =>
       let '(s2, ms2) := run_micro p s1 ms in
-      match lrun p sc (s2, [FK ms2]) (ro_log ob) with
+      match lrun p sc 0%nat (s2, [FK ms2]) (ro_log ob) with
       | Some (s3, [FK [MRet r x]]) =>
           if oz_eqb (ro_ret ob) r && (ro_exc ob =? x) then Some s3 else None
       | Some (s3, [FK [MRelease gs; MRet r x]]) =>
